@@ -916,14 +916,27 @@ class TermEval(AbsInt):
             f = node.args[0]
             fname = f.attr if isinstance(f, ast.Attribute) else (f.id if isinstance(f, ast.Name) else None)
             kind = {"kron": "kron", "kronsum": "ksum"}.get(fname)
-            if isinstance(f, ast.Lambda) and isinstance(f.body, ast.BinOp) and isinstance(f.body.op, ast.MatMult) and len(f.args.args) == 2 and \
-                    [x.id for x in (f.body.left, f.body.right) if isinstance(x, ast.Name)] == [a_.arg for a_ in f.args.args]:
-                kind = "mul"
+            flip = False  # `lambda acc, M: M @ acc`: every element is put to the LEFT of what was accumulated
+            if isinstance(f, ast.Lambda) and isinstance(f.body, ast.BinOp) and isinstance(f.body.op, ast.MatMult) and len(f.args.args) == 2:
+                sides = [x.id for x in (f.body.left, f.body.right) if isinstance(x, ast.Name)]
+                ps = [a_.arg for a_ in f.args.args]
+                if sides == ps:
+                    kind = "mul"
+                elif sides == ps[::-1]:
+                    kind, flip = "mul", True
             v = args[1]
+            out = None
             if kind and v[0] == "famlist":
-                return ("fam", kind, v[1], v[2], v[3])
-            if kind and v[0] in ("list", "tuple"):
-                return (kind, tuple(v[1]))
+                out = ("fam", kind, (-v[1] if flip else v[1]), v[2], v[3])
+            elif kind and v[0] in ("list", "tuple"):
+                out = (kind, tuple(reversed(v[1])) if flip else tuple(v[1]))
+            if out is not None and len(args) >= 3:
+                # an initial value: the fold starts from it (matrix product only: the operand the chain is applied to)
+                if kind != "mul":
+                    return ("opaque", "reduce with an initial value")
+                return MUL(out, args[2]) if flip else MUL(args[2], out)
+            if out is not None:
+                return out
             return ("opaque", "reduce")
         if dotted == "functools.reduce":
             return ("opaque", "reduce")
